@@ -357,7 +357,7 @@ def diff_cell(case, got):
 # ------------------------------------------------------------------------------------------------ fresh attribute
 
 
-def run_fresh(cell):
+def run_fresh(cell, val):
     """async_override of an attribute that does not exist: only 'back to what it was before' is prescribed"""
     conv = cell["conv"]
     env = Env("attr")
@@ -372,12 +372,12 @@ def run_fresh(cell):
 
     try:
         if conv == "plain":
-            with async_override(o, "fresh", 5):
+            with async_override(o, "fresh", val):
                 look()
         elif conv == "task":
             @asynq_deco()
             def t():
-                with async_override(o, "fresh", 5):
+                with async_override(o, "fresh", val):
                     look()
                     yield Item(env)
                     look()
@@ -396,23 +396,23 @@ def run_fresh(cell):
                 look()
                 yield Item(env)
                 look()
-            call_with_context(async_override(o, "fresh", 5), fn)
+            call_with_context(async_override(o, "fresh", val), fn)
         else:
             @async_proxy()
             def fn():
                 look()
                 return ConstFuture(1)
-            call_with_context(async_override(o, "fresh", 5), fn)
+            call_with_context(async_override(o, "fresh", val), fn)
     except Exception:
         pass
     return {"reads": seen, "fin": plain(getattr(o, "fresh", MISSING))}
 
 
-def diff_fresh(got):
+def diff_fresh(want, got):
     diff = []
-    if any(v != 5 for v in got["reads"]):
+    if any(v != want["inside"] for v in got["reads"]):
         diff.append("read:fresh")
-    if got["fin"] != MISSING:
+    if got["fin"] != want["after"]:
         diff.append("final:fresh")
     return diff
 
@@ -568,8 +568,8 @@ def run_case(case):
     if case["kind"] == "cell":
         cell = case["cell"]
         if cell["api"] == "fresh":
-            got = run_fresh(cell)
-            return got, diff_fresh(got)
+            got = run_fresh(cell, case["out"]["inside"])
+            return got, diff_fresh(case["out"], got)
         got = run_cell(cell)
         return got, diff_cell(case, got)
     h = case["out"]
